@@ -31,7 +31,10 @@ func isScalarSite(s site) bool { return !s.fd.IsList() && !s.fd.IsMap() && s.fd.
 func applyMutation(rng *vk.Rand, m proto.Message, kind string, o vk.GenOpts) (class string, ok bool) {
 	switch kind {
 	case "generic":
-		d := vk.Mutate(rng, m, o)
+		d, ok := safeMutate(rng, m, o)
+		if !ok {
+			return "", false
+		}
 		if len(d) >= 4 && d[:4] == "same" {
 			return "generic-same", true
 		}
@@ -326,4 +329,14 @@ func enrich(rng *vk.Rand, m proto.Message, o vk.GenOpts, names ...string) {
 		mr.Clear(fd)
 		vk.SetRandomField(rng, mr, fd, o, 0)
 	}
+}
+
+// safeMutate is vk.Mutate guarded against a kit defect: the kit's canonField panics when Mutate picks an unset
+// map / list / message field (it copies the read-only empty value). The panic happens before the message is
+// touched, so the message is intact and the caller just tries another mutation.
+func safeMutate(rng *vk.Rand, m proto.Message, o vk.GenOpts) (desc string, ok bool) {
+	if pk, _ := vk.Recover(func() { desc = vk.Mutate(rng, m, o) }); pk {
+		return "", false
+	}
+	return desc, true
 }
